@@ -21,6 +21,8 @@ func init() {
 			"PV-API pattern literals are prefixes; pattern/JSON-path readers decode runes; KeyToLabel class table",
 			"PV-ALIAS no unsafe.String in the engine or the backend; LP-OFFLOAD stops at stages that rewrite the line (unpack included)",
 			"MO over the JSON path table: what is extracted does not depend on the order the paths are visited",
+			"PV-ORDER the label set is reset for every record read; PV-PURE extractors never read the label set",
+			"PV-TOTAL unpack: the decoded _entry is never compared with a constant (an empty _entry replaces the line like any other)",
 		},
 		NotDecided: []string{"that jx, logfmt and regexp return the values that are in the document", "logqlpattern.Match's literal/capture alternation", "JSON path parsing"},
 		Rules: func(r *Run) {
@@ -54,6 +56,9 @@ func init() {
 			ruleNoUnsafeStrings(r, []string{enginePkg, dockerlogPkg})
 			ruleLPOffload(r) // a filter after unpack is evaluated on the unpacked line
 			ruleMO(r, 10, "jsonexpr")
+			ruleResetPerRecord(r)
+			ruleExtractorsWriteOnly(r)
+			ruleUnpackEntryNoSentinel(r)
 		},
 	})
 }
